@@ -106,7 +106,7 @@ func runC14(t *mon.T, raw json.RawMessage) {
 			strings = append(strings, s)
 		}
 	}
-	sources := []string{"bytes.Reader", "plain io.Reader", "os.File", "Reader.DataReader", "bufio.Reader"}
+	sources := []string{"bytes.Reader", "plain io.Reader", "os.File", "Reader.DataReader", "bufio.Reader", "stutter reader"}
 	var opts []carv2.Option
 	if d.TrustedCAR {
 		opts = append(opts, carv2.WithTrustedCAR(true))
@@ -127,6 +127,9 @@ func runC14(t *mon.T, raw json.RawMessage) {
 			case "bufio.Reader":
 				p := &posPlain{r: bytes.NewReader(file)}
 				src, maxRead = bufio.NewReaderSize(p, 16), func() int64 { return p.maxRead - 16 } // the buffer may read ahead by its size
+			case "stutter reader":
+				p := &posPlain{r: &lab.StutterReader{B: file}}
+				src, maxRead = p, func() int64 { return p.maxRead }
 			case "os.File":
 				f, err := os.Open(fp)
 				if err != nil {
